@@ -351,6 +351,9 @@ class Model:
                     st['effects'].append(('block-appended', args[0] if args else '', s.lineno))
                 elif fn == 'changes.append' and args == [self.linevar]:
                     st['effects'].append(('store', 'changes', s.lineno))
+                elif isinstance(n.func, ast.Attribute) and n.func.attr == 'append' and args == [self.linevar] and fn.endswith('_changes.append'):
+                    # the block under construction collects its change lines itself (current_block._changes.append(line))
+                    st['effects'].append(('store', 'changes', s.lineno))
                 elif fn == 'self.initial_blank_lines.append' and args == [self.linevar]:
                     st['effects'].append(('store', 'initial', s.lineno))
                 elif fn == 'self._blocks[-1].add_trailing_line' and args == [self.linevar]:
@@ -389,3 +392,53 @@ class Model:
         st = dict(state=key[0], old=key[1], nonempty=key[2], L=self.universe, effects=[], allow_empty=None)
         outs = self.run(self.post, st)
         return [o[0]['effects'] for o in outs]
+
+
+# ---- whole texts through the real constructor and str(), by interpretation ------------------------------------------------------------
+
+def interpret_text(src, text, strict=False, allow_empty_author=False, and_format=True):
+    """Changelog(text, strict=..., allow_empty_author=...) and str() of it interpreted (sa.heap, CPython's regex engine on the decided
+    lines; warnings collected, Version left as the text).  Returns a dict: warned (messages), raised (exception name or None),
+    blocks (the attributes of every block, in list order), initial (the lines in front of the first block), text (str() of the result,
+    None when the constructor raised) and format_raised (exception name of str(), or None)."""
+    from .. import heap as H
+    mod = src.mod(M)
+    init = mod.method('Changelog', '__init__')
+    tostr = mod.method('Changelog', '__str__')
+    if init is None or tostr is None:
+        raise AnalysisError('%s:Changelog.__init__ / __str__ not found' % M)
+    warned = []
+    heap = H.Heap(mod, extra_modules=[src.mod('debian_support')], hooks={
+        'warnings.warn': lambda it, a, k: warned.append(a[0]), 'logger.warning': lambda it, a, k: warned.append(a[0]), 'Version': lambda it, a, k: a[0]})
+    heap.native_regex = True
+    it = H.Interp(heap)
+    cl = heap.alloc('Changelog', {})
+    res = {'warned': warned, 'raised': None, 'blocks': [], 'initial': None, 'text': None, 'format_raised': None}
+    try:
+        it.call(H.Closure(init.node, {}, cl, init.cls), [text], {'strict': strict, 'allow_empty_author': allow_empty_author})
+    except H.Raised as x:
+        res['raised'] = x.exc
+        return res
+
+    def plain(v_):
+        if heap.is_list(v_):
+            return [plain(x_) for x_ in heap.items(v_)]
+        if isinstance(v_, H.Ref) and heap.objs[v_.name]['__class__'] == 'dict':
+            return {k_: plain(x_) for k_, x_ in heap.objs[v_.name]['entries']}
+        return v_.concrete() if hasattr(v_, 'concrete') else v_
+    bl = heap.objs[cl.name].get('_blocks')
+    for b_ in (heap.items(bl) if heap.is_list(bl) else []):
+        o = heap.objs[b_.name]
+        res['blocks'].append({k_: plain(o.get(k_)) for k_ in ('package', '_raw_version', 'distributions', 'urgency', 'urgency_comment', 'other_pairs', '_changes', 'author', 'date',
+                                                               '_trailing')})
+    res['initial'] = plain(heap.objs[cl.name].get('initial_blank_lines'))
+    if and_format:
+        try:
+            out = it.call(H.Closure(tostr.node, {}, cl, tostr.cls), [])
+            out = out.concrete() if hasattr(out, 'concrete') else out
+            if not isinstance(out, str):
+                raise AnalysisError('str() of the interpreted changelog is %r' % (out,))
+            res['text'] = out
+        except H.Raised as x:
+            res['format_raised'] = x.exc
+    return res
